@@ -61,7 +61,8 @@ impl<I: RecvmsgSyscall> RecvmsgSyscall for NioRecvmsgSyscall<I> {
         let mut r = 0;
         let mut index = 0;
         for iovec in &vec {
-            let mut offset = received.saturating_sub(length);
+            let stage = length;
+            let mut offset = received.saturating_sub(stage);
             length += iovec.iov_len;
             if received > length {
                 index += 1;
@@ -87,9 +88,11 @@ impl<I: RecvmsgSyscall> RecvmsgSyscall for NioRecvmsgSyscall<I> {
             }
             while received < length && left_time > 0 {
                 if 0 != offset {
+                    // always advance from the caller's original entry, the loop may come
+                    // back here several times for the same iovec
                     iov[0] = libc::iovec {
-                        iov_base: (iov[0].iov_base as usize + offset) as *mut c_void,
-                        iov_len: iov[0].iov_len - offset,
+                        iov_base: (iovec.iov_base as usize + offset) as *mut c_void,
+                        iov_len: iovec.iov_len - offset,
                     };
                 }
                 let mut arg = msghdr {
@@ -107,7 +110,8 @@ impl<I: RecvmsgSyscall> RecvmsgSyscall for NioRecvmsgSyscall<I> {
                     if blocking {
                         set_blocking(fd);
                     }
-                    return r;
+                    // end of stream: report the bytes moved before it
+                    return received.try_into().expect("received overflow");
                 } else if r != -1 {
                     reset_errno();
                     received += libc::size_t::try_from(r).expect("r overflow");
@@ -115,7 +119,9 @@ impl<I: RecvmsgSyscall> RecvmsgSyscall for NioRecvmsgSyscall<I> {
                         r = received.try_into().expect("received overflow");
                         break;
                     }
-                    offset = received.saturating_sub(length);
+                    offset = received.saturating_sub(stage);
+                    // a partial transfer ends the call: report everything moved so far
+                    r = received.try_into().expect("received overflow");
                 }
                 let error_kind = Error::last_os_error().kind();
                 if error_kind == ErrorKind::WouldBlock {
@@ -130,12 +136,21 @@ impl<I: RecvmsgSyscall> RecvmsgSyscall for NioRecvmsgSyscall<I> {
                         if blocking {
                             set_blocking(fd);
                         }
+                        if received > 0 {
+                            reset_errno();
+                            return received.try_into().expect("received overflow");
+                        }
                         return r;
                     }
                 } else if error_kind != ErrorKind::Interrupted {
                     std::mem::forget(vec);
                     if blocking {
                         set_blocking(fd);
+                    }
+                    if r == -1 && received > 0 {
+                        // bytes were already moved: report them, not the late failure
+                        reset_errno();
+                        return received.try_into().expect("received overflow");
                     }
                     return r;
                 }
@@ -147,6 +162,11 @@ impl<I: RecvmsgSyscall> RecvmsgSyscall for NioRecvmsgSyscall<I> {
         std::mem::forget(vec);
         if blocking {
             set_blocking(fd);
+        }
+        if received > 0 {
+            // e.g. the time limit expired after some bytes were moved
+            reset_errno();
+            return received.try_into().expect("received overflow");
         }
         r
     }
